@@ -47,12 +47,38 @@ int __wrap_usleep(useconds_t us)
         if (sched_mode_on) { __asm__ volatile("pause"); return 0; }
         return __real_usleep(us);
 }
+/* the long stall of the claim winner is measured in CPU time of the waiting threads, not in wall time: a waiter that gives up after N
+ * spins is seen whether or not the machine is loaded (a spinning waiter only makes progress towards N while it is scheduled).
+ * The portable driver's waiters sleep instead of spinning, so there the stall is wall time. */
+#define MAXPOOL 64
+static clockid_t cpu_clock_of[MAXPOOL]; static volatile double cpu_at_call[MAXPOOL];
+static volatile int in_call[MAXPOOL]; static volatile int active_n;
+static __thread int my_id = -1;
+static volatile int stalling;           /* a deliberate stall is in progress: the stuck-thread detector waits for it to end */
+static double thread_cpu(int i) { struct timespec ts; if (clock_gettime(cpu_clock_of[i], &ts)) return 1e18; return (double) ts.tv_sec + (double) ts.tv_nsec * 1e-9; }
+static void long_stall(void)
+{
+        double want = (double) stall_us * 1e-6;
+        __atomic_add_fetch(&stalling, 1, __ATOMIC_SEQ_CST);
+        struct timespec w0, w1; clock_gettime(CLOCK_MONOTONIC, &w0);
+        for (;;) {
+                __real_usleep(50000);
+                clock_gettime(CLOCK_MONOTONIC, &w1);
+                double wall = (double) (w1.tv_sec - w0.tv_sec) + (double) (w1.tv_nsec - w0.tv_nsec) * 1e-9;
+                if (wall < want) continue;
+                if (g_noarch || wall >= 10 * want) break;
+                int any = 0, ok = 1;
+                for (int i = 0; i < active_n; i++) if (i != my_id && in_call[i]) { any = 1; if (thread_cpu(i) - cpu_at_call[i] < want) ok = 0; }
+                if (!any || ok) break;
+        }
+        __atomic_sub_fetch(&stalling, 1, __ATOMIC_SEQ_CST);
+}
 int __wrap__aes_self_tests(void);
 int __wrap__aes_self_tests(void)
 {
         __atomic_add_fetch(&n_aes, 1, __ATOMIC_SEQ_CST);
         for (volatile int i = 0; i < stub_spin; i++) ;
-        if (stall_us) __real_usleep(stall_us);
+        if (stall_us) long_stall();
         if (g_noarch) {         /* no AES unit in the portable configuration: always a stub; the driver stops after a failed AES group */
                 if (verdict_fail == 1) t_selftest_exit = tick();
                 return verdict_fail == 1 ? 1 : 0;
@@ -266,7 +292,6 @@ static void mode_sched(void)
 }
 
 /* ================================================================== free-running stress */
-#define MAXPOOL 64
 static int POOL = 64;
 /* spinning barrier: releases all parties within nanoseconds of each other (a futex barrier staggers them) */
 typedef struct { volatile int count, gen; int parties; } sbar_t;
@@ -277,17 +302,18 @@ static void sbar_wait(sbar_t *b)
         if (__atomic_add_fetch(&b->count, 1, __ATOMIC_SEQ_CST) == b->parties) { __atomic_store_n(&b->count, 0, __ATOMIC_SEQ_CST); __atomic_add_fetch(&b->gen, 1, __ATOMIC_SEQ_CST); return; }
         for (unsigned spins = 0; __atomic_load_n(&b->gen, __ATOMIC_SEQ_CST) == g; spins++) { if ((spins & 255) == 255) sched_yield(); else __asm__ volatile("pause"); }
 }
-static volatile int active_n, stop_all, kind_of[MAXPOOL], delay_of[MAXPOOL];
+static volatile int stop_all, kind_of[MAXPOOL], delay_of[MAXPOOL];
 static volatile int rc_of[MAXPOOL]; static volatile uint64_t rclk_of[MAXPOOL];
-static volatile int in_call[MAXPOOL];
 static void *stress_thread(void *arg)
 {
         int me = (int) (intptr_t) arg;
+        my_id = me; pthread_getcpuclockid(pthread_self(), &cpu_clock_of[me]);
         for (;;) {
                 sbar_wait(&bar_go);
                 if (stop_all) return NULL;
                 if (me < active_n) {
                         for (volatile int i = 0; i < delay_of[me]; i++) ;
+                        cpu_at_call[me] = thread_cpu(me);
                         in_call[me] = 1;
                         rc_of[me] = first_call(kind_of[me], me);
                         rclk_of[me] = tick();
@@ -335,6 +361,7 @@ static void mode_stress(void)
                                         if ((spins & 255) != 255) { __asm__ volatile("pause"); continue; }
                                         sched_yield();
                                         clock_gettime(CLOCK_MONOTONIC, &t1);
+                                        if (stalling) { t0 = t1; continue; }
                                         if (t1.tv_sec - t0.tv_sec > 60) {
                                                 int stuck = 0; for (int i = 0; i < active_n; i++) stuck += in_call[i];
                                                 if (stuck && stuck + __atomic_load_n(&bar_done.count, __ATOMIC_SEQ_CST) >= bar_done.parties) {
